@@ -148,9 +148,13 @@ Definition Pb (c : case) : bool :=
   (forallb (fun f => header_ok (of_header f) && String.eqb (of_pkg f) (c_pkg c)) (c_files c)
    && c_gofmt c && c_build c).
 
-(* a case outside the guards is not compared (verdict 9: counted by the harness, never a violation) *)
+(* a case outside the guards is not compared (verdict 9: counted by the harness, never a violation):
+   component 1 = outside the input class of the generator's own theorems; component 2 = the hypotheses of the
+   C01 theorems fail: the names the (possibly partial) skeleton declares collide with each other or with the
+   hand-written package (e.g. a -short option function named like a type of the package) *)
 Definition verdict (c : case) : N * N :=
-  if negb (case_in_guard c) then (9%N, 0%N)
+  if negb (case_in_guard c) then (9%N, 1%N)
+  else if negb (model_wf c) && negb (c_build c) then (9%N, 2%N)
   else if negb (Pb c) then (2%N, corr_component c)
   else match corr_component c with 0%N => (0%N, 0%N) | k => (1%N, k) end.
 
